@@ -576,6 +576,32 @@ pub fn from_t(t: &crate::refparser::T, nm: &Names) -> Option<F> {
     go(t, &mut vec![], nm)
 }
 
+/// Replace the literal proposition names `a` / `b` of a template text by the first / last proposition of `nm`
+/// (identifier tokens only; variables, labels and operator names are left alone).
+pub fn with_props_of(text: &str, nm: &Names) -> String {
+    let (p0, p1) = (nm.props[0].clone(), nm.props[nm.props.len() - 1].clone());
+    let mut out = String::new();
+    let mut tok = String::new();
+    let flush = |tok: &mut String, out: &mut String| {
+        match tok.as_str() {
+            "a" => out.push_str(&p0),
+            "b" => out.push_str(&p1),
+            t => out.push_str(t),
+        }
+        tok.clear();
+    };
+    for c in text.chars() {
+        if c.is_alphanumeric() || c == '_' {
+            tok.push(c);
+        } else {
+            flush(&mut tok, &mut out);
+            out.push(c);
+        }
+    }
+    flush(&mut tok, &mut out);
+    out
+}
+
 /// Parse a closed formula written in user syntax with the *reference* parser.
 pub fn f(text: &str, nm: &Names) -> F {
     let t = crate::refparser::parse_str(text, true).unwrap_or_else(|e| panic!("template {text:?} does not parse: {e}"));
@@ -912,8 +938,8 @@ pub fn restricted_scope_duplicates(nm: &Names) -> Vec<F> {
                     for jump_first in [true, false] {
                         let inside = if jump_first { format!("({q1}{{x}} in %d%: ((@{{x}}: a) {glue} {psi}))") } else { format!("({q1}{{x}} in %d%: ({psi} {glue} (@{{x}}: a)))") };
                         for outside in [format!("({q2}{{y}}: (@{{y}}: {psi}))"), psi.to_string()] {
-                            out.push(f(&format!("{inside} | {outside}"), nm));
-                            out.push(f(&format!("{outside} & {inside}"), nm));
+                            out.push(f(&with_props_of(&format!("{inside} | {outside}"), nm), nm));
+                            out.push(f(&with_props_of(&format!("{outside} & {inside}"), nm), nm));
                         }
                     }
                 }
@@ -928,8 +954,8 @@ pub fn restricted_scope_duplicates(nm: &Names) -> Vec<F> {
                 for glue in ["&", "|"] {
                     let inside = format!("({q1}{{x}} in %d%: ({psi} {glue} ({q3}{{y}} in %e%: (@{{y}}: a))))");
                     for outside in [format!("(!{{y}}: (@{{y}}: {psi}))"), psi.to_string()] {
-                        out.push(f(&format!("{inside} | {outside}"), nm));
-                        out.push(f(&format!("{outside} & {inside}"), nm));
+                        out.push(f(&with_props_of(&format!("{inside} | {outside}"), nm), nm));
+                        out.push(f(&with_props_of(&format!("{outside} & {inside}"), nm), nm));
                     }
                 }
             }
